@@ -188,7 +188,7 @@ def c01(tier, seed, t0):
 
 def relations(prop, tier, seed, t0, what, bounds_extra):
     from harness import relations as H
-    n = int(os.environ.get("VERIF_N", 0)) or ({"C18": 40, "C17": 40, "C19": 24}[prop] if tier == "quick" else {"C18": 400, "C17": 400, "C19": 240}[prop])
+    n = int(os.environ.get("VERIF_N", 0)) or ({"C18": 60, "C17": 120, "C19": 30}[prop] if tier == "quick" else {"C18": 400, "C17": 600, "C19": 240}[prop])
     budget = 150 if tier == "quick" else 2400
     res = R.run_pool(H.HNAME, H.chunks(prop, tier, n), budget, seed, tier,
                      extra=dict(sample_rate=0.1 if tier == "quick" else 0.03, chunk_time=120 if tier == "quick" else 300,
